@@ -531,7 +531,7 @@ def shard(task):
 
 
 def run(ctx):
-    n = ctx.pick(150, 10000)
+    n = ctx.pick(600, 10000)
     ctx.pmap(shard, [(ctx.shard_seed(i), n) for i in range(16)])
 
 
